@@ -48,4 +48,10 @@ pub(crate) mod verif_rig_state {
             Status::DoneHidden => 2,
         }
     }
+
+    impl BarState {
+        pub(crate) fn state_pos_arc(&self) -> Arc<AtomicPosition> {
+            self.state.pos.clone()
+        }
+    }
 }
